@@ -168,6 +168,15 @@ func (g *GoBackNConn) Send(data []byte) error {
 		}
 	}
 
+	// The packets built below are handed to the send loop, which serializes
+	// them after Send has returned, and they stay in the send queue for
+	// retransmission until they are acknowledged. They must therefore not
+	// alias the caller's buffer, which the caller is free to reuse as soon
+	// as Send returns.
+	if len(data) > 0 {
+		data = append([]byte(nil), data...)
+	}
+
 	if g.cfg.maxChunkSize == 0 || len(data) == 0 {
 		// Splitting is disabled, or there is nothing to split: an
 		// empty message is still a message and is sent as a single
